@@ -1,0 +1,17 @@
+//go:build verif
+
+package token
+
+// Contracts for package token (see /verif/DESIGN.md, C03).
+// This file contains no declarations: it only carries specification comments
+// that the elkvc verification-condition generator reads.
+
+/*@
+// The display name of a token type is a table lookup; every token type the lexer produces is
+// one of the declared constants, all of which have an entry.  Assumed (trusted), not proved:
+// a Type is an unconstrained integer for the verifier.
+func (Type).Name
+  trusted
+  pure
+  assigns nothing
+@*/
